@@ -2,7 +2,7 @@
 # usage: scripts/try_mutant.sh <patch.diff> [tier] [check ids...]
 # applies the patch to /repo, runs the given (default: all) checks, undoes the patch.
 set -u
-PATCH="$1"; TIER="${2:-quick}"; shift; shift || true
+PATCH="$(realpath "$1")"; TIER="${2:-quick}"; shift; shift || true
 IDS="${*:-C01 C02 C03 C04 C05 C06 C07 C08 C09 C10 C11 C12 C13 C14 C15 C16 C17 C18 C19}"
 cd /verif
 git -C /repo apply "$PATCH" || { echo "patch does not apply"; exit 2; }
